@@ -20,10 +20,26 @@ def fns(*props, extra=()):
 
 
 PROPS = {}
+NOT_APPLICABLE = {}
+SWEEP_LEMMAS = ['L_MaxS_mono', 'L_MinS_mono', 'L_SumS_mono', 'L_MaxS_lip', 'L_MinS_lip', 'L_SumS_lip', 'L_MaxS_unit', 'L_MinS_unit', 'L_SumS_unit', 'L_BR_mono', 'L_BR_lip', 'L_BR_unit']
+A_VSTAR = "the true value V* is represented by a ghost vector VR of which the obligations use only: VR is a fixed point of the Bellman operator BR on the swept states, RP <= VR initially, VR <= 1 (the defining properties of the least fixed point; its existence is textbook, not proved here)"
 
+PROPS['C01'] = dict(
+    functions=fns('C01'),
+    lemmas=SWEEP_LEMMAS,
+    static=[('prune-flag-does-not-reach-probabilities', ST.prune_flag_independence('probabilities'))],
+    assumptions=COMMON + [A_VALID, A_VSTAR],
+    trusted_base=['spec functions MaxS/MinS/SumS/BR of contracts/tad_spec.py (the reachability Bellman operator as the statement words it)'],
+    undecided_clauses=["'lies within the solver's convergence tolerance of the true value': no inductive invariant of a loop that tests the last change bounds the distance to the fixed point; false on the real code (known finding F-ACC)"],
+    termination_unproved=['Solver.value_iteration_reachability: while diff > threshold (real-valued progress argument not mechanised; see C06)'],
+    level_text="Every obligation generated from the real AST of the reachability node steps and of the sweep is discharged for symbolic games of any size: each node step equals the Bellman operator of its owner; the sweep only writes swept states (finals stay 1, no-path states stay 0), keeps 0 <= rp <= V* at every iteration (never exceeds the true value), ends with Bellman residual <= threshold, raises exactly when pruning is on and rp[0] = 0; monotonicity and 1-Lipschitz lemmas of the operators are proved by induction. Independence of the pruning flag is a static non-interference obligation on the real AST.",
+    level_note="Trusted: z3/cvc5; the pyvc encoder's reading of Python (floats as reals, lists as arrays, heap fields); V* characterised only as a fixed point bounding rp; valid_states assumed at the sweep's entry (established by init_states, contract pending); the accuracy clause is not decided (known finding F-ACC); termination of the sweep not proved. The executable contracts run on ~2000 small games are a bounded stand-in and are not counted as proved.",
+)
 PROPS['C04'] = dict(
     functions=fns('C04'),
-    lemmas=['L_ArgEqR_empty_above', 'L_ArgEqR_empty_below'],
+    lemmas=['L_ArgEqR_empty_above', 'L_ArgEqR_empty_below'] + SWEEP_LEMMAS,
+    level_text="Obligations from the real AST: each strategy routine returns, in transition order, exactly the labels whose successor's rounded reported value equals the rounded maximum (Player 1) / minimum (Player 2) -- whole-list equality with the spec function ArgEqR for lists of any length; the per-state table has an entry for every player state and None for probabilistic states; the reported values it reads satisfy the sweep contract of C01 (residual <= threshold, <= true value); pruning-flag independence is a static obligation.",
+    level_note="Trusted: z3/cvc5, the encoder, A-REAL, A-ROUND (round(x,6) axiomatised). The link from reported to TRUE values is C01's undecided accuracy clause; float-sum ties are only covered by the bounded executable contracts.",
     static=[('prune-flag-does-not-reach-reachability-strategies', ST.prune_flag_independence('reachability_strategies'))],
     assumptions=COMMON + [A_ROUND, A_VALID],
     trusted_base=['spec functions MaxR/MinR/ArgEqR of contracts/tad_spec.py (written from the property statement)'],
